@@ -85,6 +85,12 @@ def one(mut, tier):
             if src.count(mut['old']) != 1:
                 return dict(id=mut['id'], prop=mut['prop'], verdict='edit-does-not-apply', detail='old text found %d times' % src.count(mut['old']))
             open(path, 'w').write(src.replace(mut['old'], mut['new']))
+            for f2, old2, new2 in mut.get('also_edit', []):
+                path2 = os.path.join(copy, f2)
+                src2 = open(path2).read()
+                if src2.count(old2) != 1:
+                    return dict(id=mut['id'], prop=mut['prop'], verdict='edit-does-not-apply', detail='second edit: old text found %d times' % src2.count(old2))
+                open(path2, 'w').write(src2.replace(old2, new2))
             c = subprocess.run(['/venv/bin/python', '-m', 'py_compile', path], capture_output=True, text=True)
             if c.returncode != 0:
                 return dict(id=mut['id'], prop=mut['prop'], verdict='does-not-compile', detail=c.stderr[-200:])
